@@ -186,6 +186,7 @@ pub fn minimise_typed<T: Clone, E>(
     budget: usize,
     edits: impl Fn(&T) -> Vec<E>,
     apply: impl Fn(&T, &E) -> Option<T>,
+    size: impl Fn(&T) -> usize,
     mut test: impl FnMut(&T) -> Option<Viol>,
 ) -> (T, Viol, usize) {
     let mut cur = start;
@@ -195,10 +196,14 @@ pub fn minimise_typed<T: Clone, E>(
     };
     let mut tries = 0usize;
     let mut progress = true;
-    while progress && tries < budget {
+    // work budget: a try costs as much as the candidate is large, so that minimising a
+    // huge trace stays bounded in time while small ones get many tries
+    let mut work: usize = 0;
+    let work_budget: usize = 60_000;
+    while progress && tries < budget && work < work_budget {
         progress = false;
         for e in edits(&cur) {
-            if tries >= budget {
+            if tries >= budget || work >= work_budget {
                 break;
             }
             let cand = match apply(&cur, &e) {
@@ -206,6 +211,7 @@ pub fn minimise_typed<T: Clone, E>(
                 None => continue,
             };
             tries += 1;
+            work += 1 + size(&cand) / 256;
             if let Some(v) = test(&cand) {
                 if v.class == class {
                     cur = cand;
